@@ -119,7 +119,7 @@ class CallGraph:
             else:
                 # unique-method-name fallback over repo classes
                 cands = self._method_index.get(fn.attr, [])
-                if cands and fn.attr not in ("get", "append", "items", "keys", "values", "read", "format", "join", "replace"):
+                if cands and not fn.attr.startswith("__") and fn.attr not in ("get", "append", "items", "keys", "values", "read", "format", "join", "replace"):
                     cs.callees = [c.qual for c in cands]
                     cs.how = "by-name"
                 else:
